@@ -71,11 +71,12 @@ type Exec struct {
 	mustWrap    map[string]bool
 	curCallInstr ssa.Instruction
 	modelTerms  []modelTerm
+	reveal      map[string]bool
 }
 
 func newExec(v *Verifier, pkg, name, prefix string) *Exec {
 	return &Exec{V: v, pkg: pkg, name: name, prefix: prefix, declared: map[string]bool{}, compSort: map[string]string{},
-		obCount: map[string]int{}, trusted: map[string]bool{}, inlined: map[string]bool{}, strLens: map[string]int{}}
+		obCount: map[string]int{}, trusted: map[string]bool{}, inlined: map[string]bool{}, strLens: map[string]int{}, reveal: map[string]bool{}}
 }
 
 func (x *Exec) unsup(format string, a ...any) {
@@ -187,6 +188,21 @@ func (x *Exec) obligeClause(st *State, kind string, tags []string, pos token.Pos
 	}
 }
 
+func sortStrings(xs []string) { sort.Strings(xs) }
+
+// havocPrefix replaces every component whose key starts with prefix by fresh contents.
+func (x *Exec) havocPrefix(st *State, prefix string) {
+	for _, k := range sortedKeys(st.mem) {
+		if strings.HasPrefix(k, prefix) {
+			st.mem[k] = x.fresh("Hp", x.compSort[k])
+		}
+	}
+	if st.pfx == nil {
+		st.pfx = map[string]string{}
+	}
+	st.pfx[prefix] = "p" + x.newEpoch()
+}
+
 func shortPkg(p string) string {
 	const mod = "github.com/cocosip/go-dicom-codecs/"
 	return strings.TrimPrefix(p, mod)
@@ -208,7 +224,23 @@ func (x *Exec) getComp(st *State, key, sort string) string {
 		x.unsup("component %s used at sorts %s and %s", key, s0, sort)
 	}
 	x.compSort[key] = sort
-	c := x.declare(x.prefix+"H"+st.epoch+"!"+key, sort)
+	ep := st.epoch
+	if st.pfx != nil {
+		var ps []string
+		for p := range st.pfx {
+			if strings.HasPrefix(key, p) {
+				ps = append(ps, st.pfx[p])
+			}
+		}
+		sort2 := ps
+		if len(sort2) > 1 {
+			sortStrings(sort2)
+		}
+		for _, e := range sort2 {
+			ep += "_" + e
+		}
+	}
+	c := x.declare(st.nm+"H"+ep+"!"+key, sort)
 	st.mem[key] = c
 	return c
 }
@@ -628,7 +660,7 @@ func (x *Exec) mergeStates(in []*State) *State {
 	if len(live) == 1 {
 		return live[0]
 	}
-	out := &State{cells: map[*ssa.Alloc]Val{}, mem: map[string]string{}, epoch: live[0].epoch}
+	out := &State{cells: map[*ssa.Alloc]Val{}, mem: map[string]string{}, epoch: live[0].epoch, nm: live[0].nm}
 	var pcs []string
 	for _, s := range live {
 		pcs = append(pcs, s.pc)
@@ -733,6 +765,31 @@ func (x *Exec) mergeStates(in []*State) *State {
 			x.assert(smtImp(s.pc, "(= "+c+" "+ts[i]+")"))
 		}
 		out.mem[k] = c
+	}
+	// wholesale-havoced prefixes: if the states disagree, rename them all
+	pfxAll := map[string]bool{}
+	pfxSame := true
+	for _, s := range live {
+		for p := range s.pfx {
+			pfxAll[p] = true
+		}
+	}
+	for p := range pfxAll {
+		for _, s := range live {
+			if s.pfx == nil || s.pfx[p] != live[0].pfx[p] {
+				pfxSame = false
+			}
+		}
+	}
+	if len(pfxAll) > 0 {
+		out.pfx = map[string]string{}
+		for p := range pfxAll {
+			if pfxSame {
+				out.pfx[p] = live[0].pfx[p]
+			} else {
+				out.pfx[p] = "j" + x.newEpoch()
+			}
+		}
 	}
 	// epochs differ => components not yet touched differ too; be conservative
 	for _, s := range live[1:] {
@@ -863,6 +920,9 @@ func (x *Exec) enterLoop(fr *Frame, li *loopInfo, st *State) {
 			}
 			x.compSort[k.key] = k.sort
 			st.mem[k.key] = x.fresh("Hl", k.sort)
+		}
+		for _, p := range mod.prefixes {
+			x.havocPrefix(st, p)
 		}
 	}
 	var facts []string
